@@ -56,7 +56,7 @@ func (f *c5forest) rootBase(i int) string {
 	return f.objs[c[len(c)-1]].base
 }
 
-var c5bases = []string{"[10, 20]", `"ab"`, "5", "1.5", "(1:3)", "[]", `""`, "0"}
+var c5bases = []string{"[10, 20]", `"ab"`, "5", "1.5", "(1:3)", "[]", `""`, "0", "nil", "nil"}
 
 func (f *c5forest) uid(i int) string {
 	if _, p, ok := f.find(i, "uid"); ok {
@@ -333,6 +333,18 @@ func runC05(w *fw.W) {
 				// the same call made through try: the wrapped value resolves the name exactly like the plain call
 				want, werr, ok := resultOn(i, "7")
 				if !ok {
+					return
+				}
+				switch rng.Intn(3) {
+				case 0:
+					// the lonely / strict spellings of the call: the receiver is an object (never the nil value itself,
+					// even in a forest rooted at nil), so the name resolves exactly like the plain call
+					sp := []string{"&.", "=."}[rng.Intn(2)]
+					if werr != "" {
+						expect("call spelled "+sp, class, fmt.Sprintf("nil.try.{|u| %s%s%s(7)}.err.type == %s", on, sp, name, werr), "true", "")
+					} else {
+						expect("call spelled "+sp, class, fmt.Sprintf("%s%s%s(7)", on, sp, name), want, "")
+					}
 					return
 				}
 				if werr != "" {
